@@ -528,6 +528,23 @@ func tableDump(t dht.VerifTable) string {
 
 // Structural invariants of the table snapshot (C05), and agreement of the API counts.
 func (sc *srvScen) checkTable(t dht.VerifTable) {
+	if !sc.o.noSecurity {
+		// C06 under enforcement, from an independent statement of BEP 42 (c17.go): every entry's ID is valid for its IP
+		for _, n := range t.Nodes {
+			ua, err := net.ResolveUDPAddr("udp", n.Addr)
+			if err != nil {
+				continue
+			}
+			ip := ua.IP
+			if v4 := ip.To4(); v4 != nil {
+				ip = v4
+			}
+			want := bep42Expected(ip, n.Id[19])
+			if !localExpected(ip) && [3]byte{n.Id[0], n.Id[1], n.Id[2] & 0xf8} != want {
+				sc.viol("C06", "security extension enforced, yet the table holds an entry whose ID is not valid for its IP: "+hx(n.Id[:])+"@"+n.Addr)
+			}
+		}
+	}
 	perBucket := map[int]int{}
 	seen := map[string]bool{}
 	good, notBad := 0, 0
